@@ -132,32 +132,259 @@ theorem portLines_flat (ds : List Decl) :
       | nil => rfl
       | cons x xs ih2 => simp [List.flatMap_cons, ih2, portLines1]
 
-/-! ## pass 1.5 without assign statements -/
+/-! ## stateful folds -/
+universe u1 u2 u3 u4
 
-theorem assignPairs_nil (ds : List Decl) (stmts : List Stmt) (h : (stmts.all fun s => !isAssign s) = true) :
-    assignPairs ds stmts = [] := by
-  unfold assignPairs
-  rw [List.flatMap_eq_nil_iff]
-  intro s hs
-  have := List.all_eq_true.mp h s hs
+
+/-- a fold whose steps append node and line lists that depend on a state stepping along the list, under an invariant -/
+theorem nl_foldl_st {α : Type u1} {σ : Type u4} (Inv : σ → Circ → Prop) (step : Circ → α → Circ) (next : σ → α → σ) (fn : σ → α → List NodeM)
+    (fl : σ → α → List LineM) (l : List α)
+    (h : ∀ st C x, x ∈ l → Inv st C → NL C (step C x) (fn st x) (fl st x) ∧ Inv (next st x) (step C x)) (st : σ) (C : Circ)
+    (hC : Inv st C) :
+    NL C (l.foldl step C) (walk next fn st l) (walk next fl st l) ∧ Inv (l.foldl next st) (l.foldl step C) := by
+  induction l generalizing st C with
+  | nil => exact ⟨NL.refl C, hC⟩
+  | cons x xs ih =>
+    obtain ⟨h1, h2⟩ := h st C x List.mem_cons_self hC
+    obtain ⟨h3, h4⟩ := ih (fun st C y hy => h st C y (List.mem_cons_of_mem _ hy)) (next st x) (step C x) h2
+    exact ⟨(h1.trans h3).of_eq rfl rfl, h4⟩
+
+def optNext {α : Type u1} {β : Type u2} {σ : Type u4} (p : α → Option β) (next : σ → β → σ) : σ → α → σ :=
+  fun st x => match p x with | some y => next st y | none => st
+def optList {α : Type u1} {β : Type u2} {γ : Type u3} {σ : Type u4} (p : α → Option β) (g : σ → β → List γ) : σ → α → List γ :=
+  fun st x => match p x with | some y => g st y | none => []
+
+theorem walk_filterMap {α : Type u1} {β : Type u2} {γ : Type u3} {σ : Type u4} (p : α → Option β) (next : σ → β → σ) (g : σ → β → List γ) (st : σ) (l : List α) :
+    walk (optNext p next) (optList p g) st l = walk next g st (l.filterMap p) := by
+  induction l generalizing st with
+  | nil => rfl
+  | cons a r ih =>
+    simp only [walk, List.filterMap_cons, optNext, optList]
+    cases p a with
+    | none => simp only [List.nil_append]; exact ih st
+    | some y => simp only [walk]; rw [ih]
+
+theorem foldl_filterMap' {α : Type u1} {β : Type u2} {σ : Type u4} (p : α → Option β) (next : σ → β → σ) (st : σ) (l : List α) :
+    l.foldl (optNext p next) st = (l.filterMap p).foldl next st := by
+  induction l generalizing st with
+  | nil => rfl
+  | cons a r ih =>
+    simp only [List.foldl_cons, List.filterMap_cons, optNext]
+    cases p a with
+    | none => exact ih st
+    | some y => simp only [List.foldl_cons]; exact ih _
+
+theorem mem_walk {α : Type u1} {β : Type u2} {σ : Type u4} (next : σ → α → σ) (f : σ → α → List β) (st : σ) (l : List α) (t : β) :
+    t ∈ walk next f st l ↔ ∃ pre x post, l = pre ++ x :: post ∧ t ∈ f (pre.foldl next st) x := by
+  induction l generalizing st with
+  | nil => simp [walk]
+  | cons a r ih =>
+    simp only [walk, List.mem_append, ih]
+    constructor
+    · rintro (h | ⟨pre, x, post, hl, ht⟩)
+      · exact ⟨[], a, r, rfl, h⟩
+      · exact ⟨a :: pre, x, post, by rw [hl]; rfl, ht⟩
+    · rintro ⟨pre, x, post, hl, ht⟩
+      cases pre with
+      | nil =>
+        simp only [List.nil_append, List.cons.injEq] at hl
+        obtain ⟨rfl, rfl⟩ := hl
+        exact Or.inl ht
+      | cons b pre' =>
+        simp only [List.cons_append, List.cons.injEq] at hl
+        obtain ⟨rfl, rfl⟩ := hl
+        exact Or.inr ⟨pre', x, post, rfl, ht⟩
+
+/-- every element contributes its list for SOME state -/
+theorem walk_of_mem {α : Type u1} {β : Type u2} {σ : Type u4} (next : σ → α → σ) (f : σ → α → List β) (st : σ) (l : List α) (x : α) (hx : x ∈ l) :
+    ∃ st', ∀ t ∈ f st' x, t ∈ walk next f st l := by
+  obtain ⟨pre, post, rfl⟩ := List.append_of_mem hx
+  exact ⟨pre.foldl next st, fun t ht => (mem_walk next f st _ t).mpr ⟨pre, x, post, rfl, ht⟩⟩
+
+theorem mem_walk_exists {α : Type u1} {β : Type u2} {σ : Type u4} (next : σ → α → σ) (f : σ → α → List β) (st : σ) (l : List α) (t : β) (h : t ∈ walk next f st l) :
+    ∃ st', ∃ x ∈ l, t ∈ f st' x := by
+  obtain ⟨pre, x, post, rfl, ht⟩ := (mem_walk next f st l t).mp h
+  exact ⟨_, x, by simp, ht⟩
+
+/-! ## `const_count` and the fork set after pass 1 -/
+
+theorem cc_foldl {α} (step : Circ → α → Circ) (h : ∀ C x, (step C x).cc = C.cc) (l : List α) (C : Circ) : (l.foldl step C).cc = C.cc := by
+  induction l generalizing C with
+  | nil => rfl
+  | cons x xs ih => simp only [List.foldl_cons]; rw [ih, h]
+
+theorem cc_pass1Pin (tl : TL) (ds : List Decl) (ty nm : String) (C : Circ) (ps : String × SelVal) : (pass1Pin tl ds ty nm C ps).cc = C.cc := by
+  unfold pass1Pin
+  split
+  · rfl
+  · split <;> rfl
+  · rfl
+
+theorem cc_pass1Stmt (tl : TL) (ds : List Decl) (C : Circ) (s : Stmt) : (pass1Stmt tl ds C s).cc = C.cc := by
   cases s with
-  | assign _ _ => simp [isAssign] at this
+  | inst ty nm pins => exact cc_foldl _ (cc_pass1Pin tl ds ty nm) pins _
   | decls _ => rfl
-  | inst _ _ _ => rfl
+  | assign _ _ => rfl
   | other => rfl
 
-theorem pass15_nil (cfg : Cfg) (C : Circ) : pass15 cfg C [] = C := by
-  unfold pass15
-  cases cfg.assignFix <;> simp [assignFix]
+theorem cc_ioStep (pn : List String) (C : Circ) (n : String) : (ioStep pn C n).cc = C.cc := by
+  unfold ioStep; split <;> rfl
 
-/-! ## pass 2: every input pin reads a driven signal -/
+theorem cc_portName (pn : List String) (k : DKind) (C : Circ) (n : String) : (portName pn k C n).cc = C.cc := by
+  unfold portName
+  split
+  · simp [cc_ioStep]
+  · simp [cc_ioStep]
+
+theorem cc_portDecl (pn : List String) (C : Circ) (d : Decl) : (portDecl pn C d).cc = C.cc := by
+  unfold portDecl
+  split
+  · rfl
+  · exact cc_foldl _ (cc_portName pn d.kind) _ _
+
+theorem cc_afterPass1 (tl : TL) (ports : List String) (stmts : List Stmt) : (afterPass1 tl ports stmts).cc = 0 := by
+  unfold afterPass1 portPass
+  rw [cc_foldl _ (cc_portDecl _), cc_foldl _ (cc_pass1Stmt tl _)]
+
+/-! ## pass 1.5: assign pairs in dependency order -/
+
+theorem isConstBit_of_lit (s : String) (h : isConstLit s = true) : isConstBit s = true := by
+  unfold isConstLit at h
+  simp only [Bool.or_eq_true, beq_iff_eq] at h
+  rcases h with rfl | rfl <;> decide +kernel
+
+theorem constKind_ne_fork (s : String) (h : isConstLit s = true) : constKind s ≠ forkKind := by
+  unfold isConstLit at h
+  simp only [Bool.or_eq_true, beq_iff_eq] at h
+  rcases h with rfl | rfl <;> decide +kernel
+
+def pairNodes (k : Nat) (ts : String × String) : List NodeM :=
+  if isConstLit ts.2 then [⟨constKind ts.2, constName ts.2 k, false⟩, forkN ts.1] else [forkN ts.1]
+def pairLinesM (k : Nat) (ts : String × String) : List LineM :=
+  if isConstLit ts.2 then [⟨.cell (constName ts.2 k) 0, .fork ts.1, none⟩] else [⟨.fork ts.2, .fork ts.1, none⟩]
+
+/-- the circuit knows exactly the forks `F` -/
+def ForksAre (F : List String) (C : Circ) : Prop := ∀ x, C.isFork x = F.contains x
+
+theorem contains_append_single (F : List String) (t x : String) : (F ++ [t]).contains x = (F.contains x || x == t) := by
+  rw [List.contains_append]
+  simp only [List.contains_cons, List.contains_nil, Bool.or_false]
+
+theorem isFork_append_fork (C : Circ) (n x : String) (b : Bool) : (C.addFork n b).isFork x = (C.isFork x || x == n) := by
+  unfold Circ.isFork Circ.addFork
+  simp only [List.any_append, List.any_cons, List.any_nil, Bool.or_false, beq_self_eq_true, Bool.true_and]
+  congr 1
+  exact Bool.beq_comm
+
+theorem isFork_addCell (C : Circ) (k n x : String) (hk : k ≠ forkKind) : (C.addCell k n).isFork x = C.isFork x := by
+  unfold Circ.isFork Circ.addCell
+  have : (k == forkKind) = false := by simp [hk]
+  simp only [List.any_append, List.any_cons, List.any_nil, Bool.or_false, this, Bool.false_and]
+
+theorem assignStep_nl (F : List String) (k : Nat) (C : Circ) (ts : String × String) (hcc : C.cc = k) (hF : ForksAre F C)
+    (hFc : ∀ x, F.contains x = true → isConstBit x = false)
+    (h1 : F.contains ts.1 = false) (h2 : isConstLit ts.2 = true ∨ (isConstBit ts.2 = false ∧ F.contains ts.2 = true)) :
+    NL C (assignStep C ts) (pairNodes k ts) (pairLinesM k ts) ∧ (assignStep C ts).cc = nextK k ts.2 ∧
+      ForksAre (F ++ [ts.1]) (assignStep C ts) ∧ handled C ts = true := by
+  subst hcc
+  have ht : C.isFork ts.1 = false := by rw [hF]; exact h1
+  unfold assignStep pairNodes pairLinesM nextK handled
+  rcases h2 with hc | ⟨hnc, hs⟩
+  · -- constant source
+    have hcb := isConstBit_of_lit _ hc
+    have hsf : C.isFork ts.2 = false := by
+      rw [hF]
+      cases hfc : F.contains ts.2 with
+      | false => rfl
+      | true => rw [hFc _ hfc] at hcb; cases hcb
+    simp only [ht, hsf, hcb, hc, Bool.false_eq_true, if_false, if_true, Bool.or_true]
+    refine ⟨⟨by simp [forkN], by simp⟩, by simp, ?_, trivial⟩
+    intro x
+    rw [addLine_isFork, isFork_append_fork, incCC_isFork, isFork_addCell _ _ _ _ (constKind_ne_fork _ hc), hF, contains_append_single]
+  · have hsf : C.isFork ts.2 = true := by rw [hF]; exact hs
+    have hnl : isConstLit ts.2 = false := by
+      cases hl : isConstLit ts.2 with
+      | false => rfl
+      | true => rw [isConstBit_of_lit _ hl] at hnc; cases hnc
+    simp only [ht, hsf, hnl, Bool.false_eq_true, if_false, if_true, Bool.or_true, Bool.true_or]
+    refine ⟨⟨by simp [forkN], by simp⟩, rfl, ?_, trivial⟩
+    intro x
+    rw [addLine_isFork, isFork_append_fork, hF, contains_append_single]
+
+
+/-- what `assignsOK` says about the pair at the head -/
+theorem assignsOK_cons (F : List String) (ts : String × String) (r : List (String × String)) (h : assignsOK F (ts :: r) = true) :
+    F.contains ts.1 = false ∧ isConstBit ts.1 = false ∧
+    (isConstLit ts.2 = true ∨ (isConstBit ts.2 = false ∧ F.contains ts.2 = true)) ∧ assignsOK (F ++ [ts.1]) r = true := by
+  unfold assignsOK at h
+  simp only [Bool.and_eq_true, Bool.not_eq_true'] at h
+  refine ⟨h.1.1.1, h.1.1.2, ?_, h.2⟩
+  by_cases hc : isConstLit ts.2 = true
+  · exact Or.inl hc
+  · right
+    have := h.1.2
+    simp only [hc, Bool.false_eq_true, if_false, Bool.and_eq_true, Bool.not_eq_true'] at this
+    exact this
+
+theorem pass15_fold_nl : ∀ (pairs : List (String × String)) (F : List String) (k : Nat) (C : Circ), C.cc = k → ForksAre F C →
+    (∀ x, F.contains x = true → isConstBit x = false) → assignsOK F pairs = true →
+    NL C (pairs.foldl assignStep C) (walk (fun k ts => nextK k ts.2) pairNodes k pairs) (walk (fun k ts => nextK k ts.2) pairLinesM k pairs) ∧
+      (pairs.foldl assignStep C).cc = pairs.foldl (fun k ts => nextK k ts.2) k ∧
+      ForksAre (F ++ pairs.map (·.1)) (pairs.foldl assignStep C) ∧
+      (assignRound C pairs = (pairs.foldl assignStep C, []))
+  | [], F, k, C, hcc, hF, _, _ => ⟨NL.refl C, hcc, by simpa using hF, rfl⟩
+  | ts :: r, F, k, C, hcc, hF, hFc, hok => by
+    obtain ⟨h1, h1c, h2, h3⟩ := assignsOK_cons F ts r hok
+    obtain ⟨hn, hc, hf, hh⟩ := assignStep_nl F k C ts hcc hF hFc h1 h2
+    have hFc' : ∀ x, (F ++ [ts.1]).contains x = true → isConstBit x = false := by
+      intro x hx
+      simp only [List.contains_append, Bool.or_eq_true, List.contains_cons, List.contains_nil, Bool.or_false, beq_iff_eq] at hx
+      rcases hx with hx | rfl
+      · exact hFc x hx
+      · exact h1c
+    obtain ⟨in1, in2, in3, in4⟩ := pass15_fold_nl r (F ++ [ts.1]) (nextK k ts.2) (assignStep C ts) hc hf hFc' h3
+    refine ⟨(hn.trans in1).of_eq rfl rfl, in2, ?_, ?_⟩
+    · simpa [List.append_assoc] using in3
+    · unfold assignRound at in4 ⊢
+      simp only [List.foldl_cons]
+      have : roundStep (C, []) ts = (assignStep C ts, []) := by unfold roundStep; simp [hh]
+      rw [this]
+      exact in4
+
+theorem pass15_nl (cfg : Cfg) (pairs : List (String × String)) (F : List String) (C : Circ) (hcc : C.cc = 0) (hF : ForksAre F C)
+    (hFc : ∀ x, F.contains x = true → isConstBit x = false) (hok : assignsOK F pairs = true) :
+    NL C (pass15 cfg C pairs) (walk (fun k ts => nextK k ts.2) pairNodes 0 pairs) (walk (fun k ts => nextK k ts.2) pairLinesM 0 pairs) ∧
+      (pass15 cfg C pairs).cc = pairs.foldl (fun k ts => nextK k ts.2) 0 ∧
+      ForksAre (F ++ pairs.map (·.1)) (pass15 cfg C pairs) := by
+  obtain ⟨h1, h2, h3, h4⟩ := pass15_fold_nl pairs F 0 C hcc hF hFc hok
+  have : pass15 cfg C pairs = pairs.foldl assignStep C := by
+    unfold pass15
+    cases cfg.assignFix with
+    | false => rfl
+    | true =>
+      simp only [if_true]
+      cases pairs with
+      | nil => simp [assignFix]
+      | cons ts r =>
+        simp only [List.length_cons, assignFix, List.isEmpty_cons, Bool.false_eq_true, if_false, h4, List.length_nil]
+        have hne : ((0 : Nat) == r.length + 1) = false := by simp
+        simp only [hne, Bool.false_eq_true, if_false]
+        cases r with
+        | nil => simp [assignFix]
+        | cons _ _ => simp [assignFix]
+  rw [this]
+  exact ⟨h1, h2, h3⟩
+
+/-! ## pass 2: every input pin reads a constant bit or a driven signal -/
 
 def branchN (b : String) : NodeM := ⟨forkKind, b, true⟩
 
-def p2Nodes1 (bf : Bool) (nm : String) (c : String × Nat × String) : List NodeM :=
-  if bf then [branchN (branchName c.2.2 nm c.1)] else []
-def p2Lines1 (bf : Bool) (nm : String) (c : String × Nat × String) : List LineM :=
-  [⟨.fork c.2.2, .cell nm c.2.1, if bf then some (branchName c.2.2 nm c.1) else none⟩]
+def connNodes (bf : Bool) (k : Nat) (ic : VInst × (String × Nat × String)) : List NodeM :=
+  (if isConstLit ic.2.2.2 then [⟨constKind ic.2.2.2, constName ic.2.2.2 k, false⟩, forkN (constName ic.2.2.2 k)] else []) ++
+  (if bf then [branchN (branchName (srcFork k ic.2) ic.1.name ic.2.1)] else [])
+def connLinesM (bf : Bool) (k : Nat) (ic : VInst × (String × Nat × String)) : List LineM :=
+  (if isConstLit ic.2.2.2 then [⟨.cell (constName ic.2.2.2 k) 0, .fork (constName ic.2.2.2 k), none⟩] else []) ++
+  [⟨.fork (srcFork k ic.2), .cell ic.1.name ic.2.2.1, if bf then some (branchName (srcFork k ic.2) ic.1.name ic.2.1) else none⟩]
 
 /-- all signals of `D` are forks -/
 def ForksIn (D : List String) (C : Circ) : Prop := ∀ s ∈ D, C.isFork s = true
@@ -165,72 +392,102 @@ def ForksIn (D : List String) (C : Circ) : Prop := ∀ s ∈ D, C.isFork s = tru
 theorem ForksIn.mono {D : List String} {C C' : Circ} (h : ForksIn D C) (hs : Sub C C') : ForksIn D C' :=
   fun s hsD => hs.isFork (h s hsD)
 
-theorem readerPin_nl (cfg : Cfg) (tl : TL) (ds : List Decl) (D : List String) (ty nm : String) (C : Circ) (ps : String × SelVal)
-    (hok : pinOK tl ds D ty ps = true) (hD : ForksIn D C) :
-    NL C (readerPin cfg tl ds ty nm C ps) ((p2In tl ty ps).toList.flatMap (p2Nodes1 cfg.bf nm))
-      ((p2In tl ty ps).toList.flatMap (p2Lines1 cfg.bf nm)) := by
-  unfold readerPin p2In
+/-- invariant of pass 2: `const_count` and the driven signals -/
+def P2Inv (D : List String) (k : Nat) (C : Circ) : Prop := C.cc = k ∧ ForksIn D C
+
+theorem readerPin_nl (cfg : Cfg) (tl : TL) (ds : List Decl) (D : List String) (i : VInst) (k : Nat) (C : Circ) (ps : String × SelVal)
+    (hok : pinOK tl ds D i.ty ps = true) (hI : P2Inv D k C) :
+    NL C (readerPin cfg tl ds i.ty i.name C ps)
+      (optList (p2In tl i.ty) (fun k c => connNodes cfg.bf k (i, c)) k ps)
+      (optList (p2In tl i.ty) (fun k c => connLinesM cfg.bf k (i, c)) k ps) ∧
+    P2Inv D (optNext (p2In tl i.ty) (fun k c => nextK k c.2.2) k ps) (readerPin cfg tl ds i.ty i.name C ps) := by
+  have hsub := sub_readerPin cfg tl ds i.ty i.name C ps
+  unfold optList optNext
+  obtain ⟨hcc, hD⟩ := hI
+  subst hcc
+  have hI : P2Inv D C.cc C := ⟨rfl, hD⟩
+  unfold readerPin p2In at *
   unfold pinOK at hok
-  cases h : tl ty ps.1 with
-  | none => exact ⟨by simp, by simp⟩
+  cases h : tl i.ty ps.1 with
+  | none => exact ⟨⟨by simp, by simp⟩, hI⟩
   | some v =>
     obtain ⟨idx, o⟩ := v
     cases o with
     | true =>
-      cases ps.2 <;> exact ⟨by simp, by simp⟩
+      cases ps.2 <;> exact ⟨⟨by simp, by simp⟩, hI⟩
     | false =>
       cases h2 : ps.2 with
-      | many _ => exact ⟨by simp, by simp⟩
+      | many _ => exact ⟨⟨by simp, by simp⟩, hI⟩
       | one s =>
         rw [h, h2] at hok
-        simp only [Bool.and_eq_true, Bool.not_eq_true', List.contains_eq_mem, decide_eq_true_eq] at hok
-        have hf : C.isFork s = true := hD s hok.2
-        have hc : constPin C s = (C, s) := by unfold constPin; simp [hok.1]
-        have hr : resolveRead cfg ds C s = (s, false) := resolveRead_of_isFork cfg ds C s hf
-        have hff : forkFor cfg ds C s = C := by unfold forkFor; simp [hr]
-        simp only [readerOne, hc, hr, hff, connectPin, Option.toList_some, List.flatMap_cons, List.flatMap_nil, List.append_nil,
-          p2Nodes1, p2Lines1]
-        cases cfg.bf
-        · exact ⟨by simp, by simp⟩
-        · exact ⟨by simp [branchN], by simp⟩
+        simp only [h, h2] at hsub
+        simp only [Bool.or_eq_true, Bool.and_eq_true, Bool.not_eq_true', List.contains_eq_mem, decide_eq_true_eq] at hok
+        by_cases hc : isConstLit s = true
+        · -- constant pin: own cell and fork
+          have hcb := isConstBit_of_lit s hc
+          have hcp : constPin C s = ((((C.addCell (constKind s) (constName s C.cc)).incCC).addFork (constName s C.cc)).addLine
+              (.cell (constName s C.cc) 0) (.fork (constName s C.cc)), constName s C.cc) := by unfold constPin; simp [hcb]
+          have hf : ((((C.addCell (constKind s) (constName s C.cc)).incCC).addFork (constName s C.cc)).addLine
+              (.cell (constName s C.cc) 0) (.fork (constName s C.cc))).isFork (constName s C.cc) = true := by
+            rw [addLine_isFork]; exact isFork_addFork_self _ _ _
+          have hr := resolveRead_of_isFork cfg ds _ _ hf
+          refine ⟨?_, ?_, fun x hx => hsub.isFork (hI.2 x hx)⟩
+          · simp only [readerOne, hcp, hr, forkFor, Bool.false_eq_true, if_false, connectPin, connNodes, connLinesM, srcFork, hc, if_true,
+              hI.1]
+            cases cfg.bf
+            · exact ⟨by simp [forkN], by simp⟩
+            · exact ⟨by simp [forkN, branchN], by simp⟩
+          · simp only [readerOne, hcp, hr, forkFor, Bool.false_eq_true, if_false, connectPin, nextK, hc, if_true]
+            cases cfg.bf <;> simp [hI.1]
+        · have hcl : isConstLit s = false := by simpa using hc
+          rcases hok with hok | hok
+          · rw [hok] at hcl; cases hcl
+          · have hf : C.isFork s = true := hI.2 s hok.2
+            have hcp : constPin C s = (C, s) := by unfold constPin; simp [hok.1]
+            have hr : resolveRead cfg ds C s = (s, false) := resolveRead_of_isFork cfg ds C s hf
+            have hff : forkFor cfg ds C s = C := by unfold forkFor; simp [hr]
+            refine ⟨?_, ?_, fun x hx => hsub.isFork (hI.2 x hx)⟩
+            · simp only [readerOne, hcp, hr, hff, connectPin, connNodes, connLinesM, srcFork, hcl, Bool.false_eq_true, if_false,
+                List.nil_append]
+              cases cfg.bf
+              · exact ⟨by simp, by simp⟩
+              · exact ⟨by simp [branchN], by simp⟩
+            · simp only [readerOne, hcp, hr, hff, connectPin, nextK, hcl, Bool.false_eq_true, if_false]
+              cases cfg.bf <;> simp [hI.1]
 
-def p2Nodes (bf : Bool) (tl : TL) (i : VInst) : List NodeM := (inConn tl i).flatMap (p2Nodes1 bf i.name)
-def p2Lines (bf : Bool) (tl : TL) (i : VInst) : List LineM := (inConn tl i).flatMap (p2Lines1 bf i.name)
-
-theorem flatMap_toList_flatMap {α β γ} (f : α → Option β) (g : β → List γ) (l : List α) :
-    (l.flatMap fun x => (f x).toList.flatMap g) = (l.filterMap f).flatMap g := by
-  induction l with
-  | nil => rfl
-  | cons a r ih =>
-    simp only [List.flatMap_cons, List.filterMap_cons, ih]
-    cases f a <;> simp
-
-theorem pass2Stmt_nl (cfg : Cfg) (tl : TL) (ds : List Decl) (D : List String) (C : Circ) (s : Stmt)
-    (hok : ∀ i, instOf s = some i → (i.pins.all (pinOK tl ds D i.ty)) = true) (hD : ForksIn D C) :
-    NL C (pass2Stmt cfg tl ds C s) ((instOf s).toList.flatMap (p2Nodes cfg.bf tl)) ((instOf s).toList.flatMap (p2Lines cfg.bf tl)) ∧
-      ForksIn D (pass2Stmt cfg tl ds C s) := by
-  refine ⟨?_, hD.mono (sub_pass2Stmt cfg tl ds C s)⟩
+theorem pass2Stmt_nl (cfg : Cfg) (tl : TL) (ds : List Decl) (D : List String) (k : Nat) (C : Circ) (s : Stmt)
+    (hok : ∀ i, instOf s = some i → (i.pins.all (pinOK tl ds D i.ty)) = true) (hI : P2Inv D k C) :
+    NL C (pass2Stmt cfg tl ds C s)
+      (optList instOf (fun k i => walk (fun k c => nextK k c.2.2) (fun k c => connNodes cfg.bf k (i, c)) k (inConn tl i)) k s)
+      (optList instOf (fun k i => walk (fun k c => nextK k c.2.2) (fun k c => connLinesM cfg.bf k (i, c)) k (inConn tl i)) k s) ∧
+    P2Inv D (optNext instOf (fun k i => (inConn tl i).foldl (fun k c => nextK k c.2.2) k) k s) (pass2Stmt cfg tl ds C s) := by
   cases s with
   | inst ty nm pins =>
     have hp := hok ⟨ty, nm, pins⟩ rfl
-    have h1 := (nl_foldl (ForksIn D) (readerPin cfg tl ds ty nm) _ _ pins
-      (fun C x hx hC => ⟨readerPin_nl cfg tl ds D ty nm C x (List.all_eq_true.mp hp x hx) hC,
-        hC.mono (sub_readerPin cfg tl ds ty nm C x)⟩) C hD).1
-    refine h1.of_eq ?_ ?_
-    · simp [instOf, p2Nodes, inConn, flatMap_toList_flatMap]
-    · simp [instOf, p2Lines, inConn, flatMap_toList_flatMap]
-  | decls _ => exact NL.refl C
-  | assign _ _ => exact NL.refl C
-  | other => exact NL.refl C
+    have h1 := nl_foldl_st (P2Inv D) (readerPin cfg tl ds ty nm)
+      (optNext (p2In tl ty) (fun k c => nextK k c.2.2))
+      (optList (p2In tl ty) (fun k c => connNodes cfg.bf k (⟨ty, nm, pins⟩, c)))
+      (optList (p2In tl ty) (fun k c => connLinesM cfg.bf k (⟨ty, nm, pins⟩, c))) pins
+      (fun k C x hx hC => readerPin_nl cfg tl ds D ⟨ty, nm, pins⟩ k C x (List.all_eq_true.mp hp x hx) hC) k C hI
+    rw [walk_filterMap, walk_filterMap, foldl_filterMap'] at h1
+    exact h1
+  | decls _ => exact ⟨NL.refl C, hI⟩
+  | assign _ _ => exact ⟨NL.refl C, hI⟩
+  | other => exact ⟨NL.refl C, hI⟩
 
-theorem pass2_nl (cfg : Cfg) (tl : TL) (ds : List Decl) (D : List String) (stmts : List Stmt) (C : Circ)
-    (hok : ((vInsts stmts).all fun i => i.pins.all (pinOK tl ds D i.ty)) = true) (hD : ForksIn D C) :
-    NL C (stmts.foldl (pass2Stmt cfg tl ds) C) ((vInsts stmts).flatMap (p2Nodes cfg.bf tl)) ((vInsts stmts).flatMap (p2Lines cfg.bf tl)) ∧
+theorem pass2_nl (cfg : Cfg) (tl : TL) (ds : List Decl) (D : List String) (stmts : List Stmt) (k : Nat) (C : Circ)
+    (hok : ((vInsts stmts).all fun i => i.pins.all (pinOK tl ds D i.ty)) = true) (hI : P2Inv D k C) :
+    NL C (stmts.foldl (pass2Stmt cfg tl ds) C) (connWalk tl (connNodes cfg.bf) k (vInsts stmts)) (connWalk tl (connLinesM cfg.bf) k (vInsts stmts)) ∧
       ForksIn D (stmts.foldl (pass2Stmt cfg tl ds) C) := by
-  have := nl_foldl (ForksIn D) (pass2Stmt cfg tl ds) _ _ stmts (fun C x hx hC => pass2Stmt_nl cfg tl ds D C x (by
-    intro i hi
-    exact List.all_eq_true.mp hok i (List.mem_filterMap.mpr ⟨x, hx, hi⟩)) hC) C hD
-  exact ⟨this.1.of_eq (flatMap_instOf _ _) (flatMap_instOf _ _), this.2⟩
+  have := nl_foldl_st (P2Inv D) (pass2Stmt cfg tl ds)
+    (optNext instOf (fun k i => (inConn tl i).foldl (fun k c => nextK k c.2.2) k))
+    (optList instOf (fun k i => walk (fun k c => nextK k c.2.2) (fun k c => connNodes cfg.bf k (i, c)) k (inConn tl i)))
+    (optList instOf (fun k i => walk (fun k c => nextK k c.2.2) (fun k c => connLinesM cfg.bf k (i, c)) k (inConn tl i))) stmts
+    (fun k C x hx hC => pass2Stmt_nl cfg tl ds D k C x (by
+      intro i hi
+      exact List.all_eq_true.mp hok i (List.mem_filterMap.mpr ⟨x, hx, hi⟩)) hC) k C hI
+  rw [walk_filterMap, walk_filterMap] at this
+  exact ⟨this.1, this.2.2⟩
 
 /-! ## output ports: every output bit is driven under its own name -/
 
